@@ -192,8 +192,15 @@ class GenericCallAdapter(Adapter):
 
         old_node_kwargs = {kw.arg: kw.value for kw in old_node.keywords}
 
+        # new arguments are inserted in front of the next argument which is kept,
+        # the position is the index of that argument in the old call (positional
+        # arguments first), which does not depend on other changes
+        old_kwarg_pos = {
+            kw.arg: len(old_node.args) + i for i, kw in enumerate(old_node.keywords)
+        }
+
         to_insert = []
-        insert_pos = 0
+        insert_pos = len(old_node.args) + len(old_node.keywords)
         for key, new_value_element in new_kwargs.items():
             if new_value_element.is_default:
                 continue
@@ -211,20 +218,18 @@ class GenericCallAdapter(Adapter):
                 ).assign(old_value_element, node, new_value_element.value)
 
                 if to_insert:
-                    for key, value in to_insert:
+                    for insert_key, value in to_insert:
 
                         yield CallArg(
                             flag="fix",
                             file=self.context.file._source,
                             node=old_node,
-                            arg_pos=insert_pos,
-                            arg_name=key,
+                            arg_pos=old_kwarg_pos[key],
+                            arg_name=insert_key,
                             new_code=self.context.file._value_to_code(value),
                             new_value=value,
                         )
                     to_insert = []
-
-                insert_pos += 1
 
         if to_insert:
 
